@@ -7,7 +7,7 @@ add("C19", "checks/c19_lists.c", ["default-plain", "default-asan", "c89-plain"],
     "grammar = generated well-formed lists of 1..8 entries, 1..5 dimensions, multi-digit / signed / fractional / exponent values; mutate = "
     "1-2 near-miss edits of such lists. distinct_nontrivial counts distinct bodies with at least one entry the reference lets be OK",
     exhaustive=dict(quick=True, thorough=True),
-    rule_more="rotation of bodies at one address; entries spelled with 40..320 characters; zero-padded numbers; two list parameters of one command decoded in lockstep; C90 library",
+    rule_more="rotation of bodies at one address; entries spelled with 40..320 characters; zero-padded numbers; two list parameters of one command decoded in lockstep; C90 library; two-list commands ended by LF, by a flush call, or behind an empty line and then flushed",
     technique="function-level differential runtime monitor: the four list accessors vs an independent reference list parser (SCPI-99 8.3.2/8.3.3, "
               "IEEE 488.2 7.7.2) over an exhaustive small-alphabet enumeration, grammar-generated lists and their mutations; value arrays are "
               "exact-size heap cells under ASan+UBSan and guarded stack cells in the -O2 build; error queue observed through a capture context",
